@@ -381,6 +381,15 @@ pub fn bases() -> Vec<(String, Vec<u8>)> {
         ("reach:[0,16,22]".into(), fam::build_reach(&[0, 16, 22])),
         ("names:all".into(), fam::build_names(0, 0x1ff)),
         ("struct:elem=40,start=2".into(), fam::build_struct(&[("elem", 40), ("start", 2)])),
+        // types / globals / tables that only dead code uses: gc deletes them, a later edit re-creates them
+        ("dead-types".into(), wgen::stateful::assemble(r#"(module
+            (type $dead64 (func (result i64)))
+            (type $deadi (func (param i32) (result i32)))
+            (func $d1 (type $dead64) (i64.const 1))
+            (func $d2 (type $deadi) (local.get 0))
+            (global $dg (mut i32) (i32.const 3))
+            (func $d3 (global.set $dg (i32.const 1)))
+            (func (export "live") (nop)))"#).unwrap()),
     ]
 }
 
